@@ -845,6 +845,35 @@ def register(E):
         return re.sub(pat, r, src.decode()).encode()
     I['(*regexp.Regexp).ReplaceAllString'] = re_replace_all_string
 
+    def _conc_strs(args, what):
+        for a in args:
+            if type(a) is not bytes:
+                raise Unsupported(what + ' on a symbolic string')
+        return args
+
+    def strings_replaceall(E, args):
+        s, old, new = _conc_strs(args, 'strings.ReplaceAll')
+        if old == b'':
+            raise Unsupported('ReplaceAll with empty pattern')
+        return s.replace(old, new)
+    I['strings.ReplaceAll'] = strings_replaceall
+
+    def strings_replace(E, args):
+        s, old, new = _conc_strs(args[:3], 'strings.Replace')
+        n = E.conc_int(args[3], 64, True)
+        if old == b'':
+            raise Unsupported('Replace with empty pattern')
+        return s.replace(old, new) if n < 0 else s.replace(old, new, n)
+    I['strings.Replace'] = strings_replace
+    I['strings.TrimPrefix'] = lambda E, a: (lambda s, p: s[len(p):] if s.startswith(p) else s)(*_conc_strs(a, 'strings.TrimPrefix'))
+    I['strings.TrimSuffix'] = lambda E, a: (lambda s, p: s[:len(s) - len(p)] if p and s.endswith(p) else s)(*_conc_strs(a, 'strings.TrimSuffix'))
+    I['strings.HasSuffix'] = lambda E, a: (lambda s, p: s.endswith(p))(*_conc_strs(a, 'strings.HasSuffix'))
+    I['strings.Contains'] = lambda E, a: (lambda s, p: p in s)(*_conc_strs(a, 'strings.Contains'))
+    I['strings.Index'] = lambda E, a: (lambda s, p: s.find(p))(*_conc_strs(a, 'strings.Index'))
+    I['strings.TrimSpace'] = lambda E, a: _conc_strs(a, 'strings.TrimSpace')[0].strip(b' \t\n\r\v\f')
+    I['strings.Title'] = lambda E, a: _conc_strs(a, 'strings.Title')[0].title()
+    I['strings.EqualFold'] = lambda E, a: (lambda s, p: s.lower() == p.lower())(*_conc_strs(a, 'strings.EqualFold'))
+
     def strings_tolower(E, args):
         if type(args[0]) is bytes:
             return args[0].lower()
